@@ -38,6 +38,14 @@
 #include <symengine/derivative.h>
 #include <symengine/subs.h>
 #include <symengine/symengine_exception.h>
+#include <symengine/series_generic.h>
+#include <symengine/fields.h>
+#include <symengine/polys/msymenginepoly.h>
+#include <symengine/polys/uexprpoly.h>
+#include <symengine/polys/uratpoly.h>
+#include <symengine/polys/uintpoly.h>
+#include <symengine/tuple.h>
+#include <symengine/matrix_expressions.h>
 
 #include <fuzzer/FuzzedDataProvider.h>
 #include <cmath>
@@ -175,6 +183,7 @@ bool small_for_arith(const B &b)
 }
 
 bool nonfinite_double_inside(const B &b);
+bool tree_canonical(const B &b, int depth);
 
 // ---- mode B: program -> object
 B build(FuzzedDataProvider &fdp)
@@ -605,6 +614,10 @@ void exercise(const B &b, fz::Stats &st)
         st.exclude("floor_nonfinite_double");
         return;
     }
+    if (st.tag("loads_noncanonical_object") && !tree_canonical(b, 0)) {
+        st.exclude("loads_noncanonical_object");
+        return;
+    }
     std::string text;
     try {
         text = b->__str__();
@@ -677,6 +690,286 @@ void exercise(const B &b, fz::Stats &st)
         } catch (std::exception &) {
             st.count("post_subs_throws");
         }
+    }
+}
+
+// ---- KF-C20-02 exclusion: canonical-form walker ---------------------------------------------------
+// The load_basic overloads build most classes with make_rcp directly, without checking the class invariant
+// (is_canonical); later operations assume it (e.g. DiffVisitor::bvisit(Derivative) rcp_static_casts the variables to
+// Symbol).  While that finding is open (tag loads_noncanonical_object) a loaded object that has a node violating its
+// class's own is_canonical() predicate is only printed/hashed, the evaluating operations are excluded by construction.
+// Children are read through the stored fields (no construction), bottom-up, so that a predicate only ever sees
+// canonical operands.
+void stored_children(const Basic &b, vec_basic &out)
+{
+    switch (b.get_type_code()) {
+        case SYMENGINE_ADD: {
+            const Add &x = down_cast<const Add &>(b);
+            out.push_back(x.get_coef());
+            for (auto &p : x.get_dict()) {
+                out.push_back(p.first);
+                out.push_back(p.second);
+            }
+            return;
+        }
+        case SYMENGINE_MUL: {
+            const Mul &x = down_cast<const Mul &>(b);
+            out.push_back(x.get_coef());
+            for (auto &p : x.get_dict()) {
+                out.push_back(p.first);
+                out.push_back(p.second);
+            }
+            return;
+        }
+        case SYMENGINE_POW: {
+            const Pow &x = down_cast<const Pow &>(b);
+            out.push_back(x.get_base());
+            out.push_back(x.get_exp());
+            return;
+        }
+        case SYMENGINE_RATIONAL: {
+            const Rational &x = down_cast<const Rational &>(b);
+            out.push_back(x.get_num()); // temporaries
+            out.push_back(x.get_den());
+            return;
+        }
+        case SYMENGINE_COMPLEX:
+        case SYMENGINE_COMPLEX_DOUBLE: {
+            const ComplexBase &x = down_cast<const ComplexBase &>(b);
+            out.push_back(x.real_part()); // temporaries
+            out.push_back(x.imaginary_part());
+            return;
+        }
+        case SYMENGINE_INFTY:
+            out.push_back(down_cast<const Infty &>(b).get_direction());
+            return;
+        case SYMENGINE_INTERVAL: {
+            const Interval &x = down_cast<const Interval &>(b);
+            out.push_back(x.get_start());
+            out.push_back(x.get_end());
+            return;
+        }
+        case SYMENGINE_PIECEWISE:
+            for (auto &p : down_cast<const Piecewise &>(b).get_vec()) {
+                out.push_back(p.first);
+                out.push_back(p.second);
+            }
+            return;
+        case SYMENGINE_DERIVATIVE: {
+            const Derivative &x = down_cast<const Derivative &>(b);
+            out.push_back(x.get_arg());
+            for (auto &s : x.get_symbols())
+                out.push_back(s);
+            return;
+        }
+        case SYMENGINE_SUBS: {
+            const Subs &x = down_cast<const Subs &>(b);
+            out.push_back(x.get_arg());
+            for (auto &p : x.get_dict()) {
+                out.push_back(p.first);
+                out.push_back(p.second);
+            }
+            return;
+        }
+        case SYMENGINE_AND:
+            for (auto &p : down_cast<const And &>(b).get_container())
+                out.push_back(p);
+            return;
+        case SYMENGINE_OR:
+            for (auto &p : down_cast<const Or &>(b).get_container())
+                out.push_back(p);
+            return;
+        case SYMENGINE_XOR:
+            for (auto &p : down_cast<const Xor &>(b).get_container())
+                out.push_back(p);
+            return;
+        case SYMENGINE_NOT:
+            out.push_back(down_cast<const Not &>(b).get_arg());
+            return;
+        case SYMENGINE_CONTAINS: {
+            const Contains &x = down_cast<const Contains &>(b);
+            out.push_back(x.get_expr());
+            out.push_back(x.get_set());
+            return;
+        }
+        case SYMENGINE_FINITESET:
+            for (auto &p : down_cast<const FiniteSet &>(b).get_container())
+                out.push_back(p);
+            return;
+        case SYMENGINE_UNION:
+            for (auto &p : down_cast<const Union &>(b).get_container())
+                out.push_back(p);
+            return;
+        case SYMENGINE_COMPLEMENT: {
+            const Complement &x = down_cast<const Complement &>(b);
+            out.push_back(x.get_universe());
+            out.push_back(x.get_container());
+            return;
+        }
+        case SYMENGINE_IMAGESET: {
+            const ImageSet &x = down_cast<const ImageSet &>(b);
+            out.push_back(x.get_symbol());
+            out.push_back(x.get_expr());
+            out.push_back(x.get_baseset());
+            return;
+        }
+        case SYMENGINE_CONDITIONSET: {
+            const ConditionSet &x = down_cast<const ConditionSet &>(b);
+            out.push_back(x.get_symbol());
+            out.push_back(x.get_condition());
+            return;
+        }
+        default:
+            break;
+    }
+    if (is_a_sub<OneArgFunction>(b)) {
+        out.push_back(down_cast<const OneArgFunction &>(b).get_arg());
+        return;
+    }
+    if (is_a_sub<TwoArgFunction>(b)) {
+        const TwoArgFunction &x = down_cast<const TwoArgFunction &>(b);
+        out.push_back(x.get_arg1());
+        out.push_back(x.get_arg2());
+        return;
+    }
+    if (is_a_Relational(b)) {
+        const Relational &x = down_cast<const Relational &>(b);
+        out.push_back(x.get_arg1());
+        out.push_back(x.get_arg2());
+        return;
+    }
+    if (is_a_sub<MultiArgFunction>(b)) {
+        for (auto &p : down_cast<const MultiArgFunction &>(b).get_args())
+            out.push_back(p);
+        return;
+    }
+    // atoms and classes without stored children (or unsupported ones): nothing
+}
+
+
+struct P0 {
+};
+struct P1 : P0 {
+};
+struct P2 : P1 {
+};
+struct P3 : P2 {
+};
+struct P4 : P3 {
+};
+struct P5 : P4 {
+};
+struct P6 : P5 {
+};
+struct P7 : P6 {
+};
+template <class T>
+auto canon_(T &x, P7) -> decltype(x.is_canonical(x.get_coef(), x.get_dict()))
+{
+    return x.is_canonical(x.get_coef(), x.get_dict()); // Add, Mul
+}
+template <class T>
+auto canon_(T &x, P6) -> decltype(x.is_canonical(*x.get_base(), *x.get_exp()))
+{
+    return x.is_canonical(*x.get_base(), *x.get_exp()); // Pow
+}
+template <class T>
+auto canon_(T &x, P5) -> decltype(x.is_canonical(x.get_arg(), x.get_symbols()))
+{
+    return x.is_canonical(x.get_arg(), x.get_symbols()); // Derivative
+}
+template <class T>
+auto canon_(T &x, P4) -> decltype(x.is_canonical(x.get_arg(), x.get_dict()))
+{
+    return x.is_canonical(x.get_arg(), x.get_dict()); // Subs
+}
+template <class T>
+auto canon_(T &x, P3) -> decltype(x.is_canonical(x.get_arg1(), x.get_arg2()))
+{
+    return x.is_canonical(x.get_arg1(), x.get_arg2()); // TwoArgFunction, Relational
+}
+template <class T>
+auto canon_(T &x, P2) -> decltype(x.is_canonical(x.get_arg()))
+{
+    return x.is_canonical(x.get_arg()); // OneArgFunction, Not
+}
+template <class T>
+auto canon_(T &x, P1) -> decltype(x.is_canonical(x.get_args()))
+{
+    return x.is_canonical(x.get_args()); // MultiArgFunction
+}
+template <class T>
+bool canon_(T &, P0)
+{
+    return true;
+}
+
+bool node_canonical(const Basic &b)
+{
+    switch (b.get_type_code()) {
+        case SYMENGINE_PIECEWISE: {
+            Piecewise &x = const_cast<Piecewise &>(down_cast<const Piecewise &>(b));
+            return !x.get_vec().empty() && x.is_canonical(x.get_vec());
+        }
+        case SYMENGINE_AND: {
+            And &x = const_cast<And &>(down_cast<const And &>(b));
+            return x.is_canonical(x.get_container());
+        }
+        case SYMENGINE_OR: {
+            Or &x = const_cast<Or &>(down_cast<const Or &>(b));
+            return x.is_canonical(x.get_container());
+        }
+        case SYMENGINE_XOR: {
+            Xor &x = const_cast<Xor &>(down_cast<const Xor &>(b));
+            return x.is_canonical(x.get_container());
+        }
+        case SYMENGINE_INFTY: {
+            const Infty &x = down_cast<const Infty &>(b);
+            return x.is_canonical(x.get_direction());
+        }
+        case SYMENGINE_FINITESET:
+            return FiniteSet::is_canonical(down_cast<const FiniteSet &>(b).get_container());
+        case SYMENGINE_INTERVAL: {
+            const Interval &x = down_cast<const Interval &>(b);
+            return Interval::is_canonical(x.get_start(), x.get_end(), x.get_left_open(), x.get_right_open());
+        }
+        case SYMENGINE_UNION:
+            return Union::is_canonical(down_cast<const Union &>(b).get_container());
+        case SYMENGINE_IMAGESET: {
+            const ImageSet &x = down_cast<const ImageSet &>(b);
+            return ImageSet::is_canonical(x.get_symbol(), x.get_expr(), x.get_baseset());
+        }
+        case SYMENGINE_CONDITIONSET: {
+            const ConditionSet &x = down_cast<const ConditionSet &>(b);
+            return ConditionSet::is_canonical(x.get_symbol(), x.get_condition());
+        }
+        default:
+            break;
+    }
+    switch (b.get_type_code()) {
+#define SYMENGINE_ENUM(type, Class)                                                                                        \
+    case type:                                                                                                         \
+        return canon_(const_cast<Class &>(static_cast<const Class &>(b)), P7());
+#include "symengine/type_codes.inc"
+#undef SYMENGINE_ENUM
+        default:
+            return true;
+    }
+}
+
+bool tree_canonical(const B &b, int depth)
+{
+    if (depth > 400)
+        return false;
+    vec_basic ch;
+    stored_children(*b, ch);
+    for (auto &c : ch)
+        if (!tree_canonical(c, depth + 1))
+            return false;
+    try {
+        return node_canonical(*b);
+    } catch (std::exception &) {
+        return false;
     }
 }
 
